@@ -57,12 +57,85 @@ func (w *wireConn) recv(method string) (resp restResp, closed bool, err error) {
 	return restResp{hr.StatusCode, hr.Header.Get("Content-Type"), string(b)}, hr.Close, err
 }
 
-func (w *wireConn) close() { w.c.Close() }
+func (w *wireConn) close() {
+	if w != nil {
+		w.c.Close()
+	}
+}
 
 // wireFault is a request a server may refuse without looking at its body, carrying a body of a given size.
 type wireFault struct {
 	Name string `json:"name"`
 	Req  rreq   `json:"request"`
+	// Proto (when set) names bytes that are no well-formed request of the service's size at all (see protoBytes):
+	// the server may answer them or just close; what counts is that the probes that follow are answered.
+	Proto string `json:"protocol_level,omitempty"`
+	N     int    `json:"n,omitempty"`
+}
+
+// protoKinds: what a client can send that the server refuses before any handler runs.
+var protoKinds = []string{"long-path", "long-query", "long-header", "many-headers", "declared-body-over-limit", "sent-body-over-limit",
+	"no-version", "bad-version", "empty-method", "bare-lf-garbage", "binary-garbage", "negative-length", "non-numeric-length",
+	"two-lengths", "bad-chunk", "space-in-path", "no-host-http10", "expect-continue-over-limit", "header-without-colon", "only-crlf"}
+
+func protoBytes(kind string, n int) []byte {
+	switch kind {
+	case "long-path":
+		return []byte("GET /" + strings.Repeat("a", n) + " HTTP/1.1\r\nHost: verif\r\n\r\n")
+	case "long-query":
+		return []byte("POST /otp/secret?" + strings.Repeat("q=1&", n/4) + " HTTP/1.1\r\nHost: verif\r\nContent-Length: 0\r\n\r\n")
+	case "long-header":
+		return []byte("GET / HTTP/1.1\r\nHost: verif\r\nX-Pad: " + strings.Repeat("h", n) + "\r\n\r\n")
+	case "many-headers":
+		return []byte("GET / HTTP/1.1\r\nHost: verif\r\n" + strings.Repeat("X-A: b\r\n", n/8) + "\r\n")
+	case "declared-body-over-limit":
+		return []byte(fmt.Sprintf("POST /hotp/generate HTTP/1.1\r\nHost: verif\r\nContent-Type: application/json\r\nContent-Length: %d\r\n\r\n{}", 1<<20+n))
+	case "sent-body-over-limit":
+		return []byte(fmt.Sprintf("POST /hotp/generate HTTP/1.1\r\nHost: verif\r\nContent-Type: application/json\r\nContent-Length: %d\r\n\r\n", 1<<20+n) + strings.Repeat(" ", 1<<20+n))
+	case "no-version":
+		return []byte("GET /\r\n\r\n")
+	case "bad-version":
+		return []byte("GET / HTTP/9.9\r\nHost: verif\r\n\r\n")
+	case "empty-method":
+		return []byte(" / HTTP/1.1\r\nHost: verif\r\n\r\n")
+	case "bare-lf-garbage":
+		return []byte(strings.Repeat("garbage\n", 1+n/8) + "\n")
+	case "binary-garbage":
+		b := make([]byte, 64+n)
+		for i := range b {
+			b[i] = byte(i*37 + 1)
+		}
+		return append(b, "\r\n\r\n"...)
+	case "negative-length":
+		return []byte("POST /hotp/generate HTTP/1.1\r\nHost: verif\r\nContent-Length: -5\r\n\r\n{}")
+	case "non-numeric-length":
+		return []byte("POST /hotp/generate HTTP/1.1\r\nHost: verif\r\nContent-Length: 0x10\r\n\r\n{}")
+	case "two-lengths":
+		return []byte("POST /hotp/generate HTTP/1.1\r\nHost: verif\r\nContent-Length: 2\r\nContent-Length: 99999999999999999999\r\n\r\n{}")
+	case "bad-chunk":
+		return []byte("POST /hotp/generate HTTP/1.1\r\nHost: verif\r\nTransfer-Encoding: chunked\r\n\r\nzz\r\n{}\r\n0\r\n\r\n")
+	case "space-in-path":
+		return []byte("GET /a b c HTTP/1.1\r\nHost: verif\r\n\r\n")
+	case "no-host-http10":
+		return []byte("GET / HTTP/1.0\r\n\r\n")
+	case "expect-continue-over-limit":
+		return []byte(fmt.Sprintf("POST /hotp/generate HTTP/1.1\r\nHost: verif\r\nExpect: 100-continue\r\nContent-Length: %d\r\n\r\n", 1<<20+n))
+	case "header-without-colon":
+		return []byte("GET / HTTP/1.1\r\nHost verif\r\nnonsense\r\n\r\n")
+	case "only-crlf":
+		return []byte(strings.Repeat("\r\n", 1+n))
+	}
+	panic("unknown protocol-level kind " + kind)
+}
+
+func protoFaults() []wireFault {
+	var out []wireFault
+	for _, k := range protoKinds {
+		for _, n := range []int{1, 4000, 8100, 8192, 9000, 70000} {
+			out = append(out, wireFault{Name: fmt.Sprintf("protocol level: %s (n=%d)", k, n), Proto: k, N: n, Req: rreq{Method: "GET", Path: "/"}})
+		}
+	}
+	return out
 }
 
 type wireCase struct {
@@ -94,7 +167,7 @@ func wireFaults() []wireFault {
 				if n == 0 && cn != "letters" {
 					continue
 				}
-				out = append(out, wireFault{fmt.Sprintf("%s %s with a %d-byte body (%s)", r[0], r[1], n, cn), rawReq(r[0], r[1], body)})
+				out = append(out, wireFault{Name: fmt.Sprintf("%s %s with a %d-byte body (%s)", r[0], r[1], n, cn), Req: rawReq(r[0], r[1], body)})
 			}
 		}
 	}
@@ -113,6 +186,9 @@ func wireRun(addr string, c wireCase) (obs, bad string) {
 	}
 	defer func() { w.close() }()
 	now0 := time.Now().Unix()
+	if c.Fault.Proto != "" {
+		return wireProto(addr, w, c, q)
+	}
 	if err := w.send(c.Fault.Req); err != nil {
 		return "write failed", "" // the server closed while we were still writing a refused request: a refusal
 	}
@@ -135,7 +211,7 @@ func wireRun(addr string, c wireCase) (obs, bad string) {
 		if closed {
 			w.close()
 			if w, err = dialWire(addr); err != nil {
-				return obs, "the service stopped accepting connections: " + err.Error()
+				return obs, "the service stopped accepting connections: " + strings.ReplaceAll(err.Error(), addr, "<server>")
 			}
 			closed = false
 			if err := w.send(q); err != nil {
@@ -154,6 +230,56 @@ func wireRun(addr string, c wireCase) (obs, bad string) {
 		obs += fmt.Sprint(" ", p.Status)
 		if d := compareResp(q, restExpect(q, now0, time.Now().Unix()), p, nil); d != "" {
 			return obs, fmt.Sprintf("probe %d after the refused request is answered wrongly on the same connection: %s (status %d, body %s)", k, d, p.Status, trunc80(p.Body))
+		}
+	}
+	return obs, ""
+}
+
+// wireProto: bytes the server refuses before any handler runs.  Whatever it does with that connection (answer,
+// answer and close, just close) is recorded but not judged, except that it must do it within the guard; the
+// probes that follow - on the same connection if it was kept open after a complete response, else on a new one -
+// must be answered exactly as the reference says.
+func wireProto(addr string, w *wireConn, c wireCase, q rreq) (obs, bad string) {
+	defer func() { w.close() }()
+	w.c.SetWriteDeadline(time.Now().Add(10 * time.Second))
+	_, werr := w.c.Write(protoBytes(c.Fault.Proto, c.Fault.N))
+	closed := true
+	if werr == nil {
+		r1, cl, err := w.recv("GET")
+		if err == nil {
+			obs, closed = fmt.Sprint(r1.Status), cl
+			if r1.Status >= 200 && r1.Status < 300 && c.Fault.Proto != "no-host-http10" && c.Fault.Proto != "only-crlf" && c.Fault.Proto != "long-query" {
+				// informational only: kinds the server may legitimately read as a request are excluded
+				obs += "(accepted)"
+			}
+		} else if ne, ok := err.(net.Error); ok && ne.Timeout() {
+			return "timeout", "the server neither answered nor closed within 10 s (i/o timeout)"
+		} else {
+			obs = "closed"
+		}
+	} else {
+		obs = "write failed"
+	}
+	// a connection that got a response but was not announced closed may still carry left-over bytes of the
+	// refused text; a well-formed probe is only owed an answer on a NEW connection, which is what we use
+	_ = closed
+	for k := 0; k < 2; k++ {
+		w.close()
+		var err error
+		if w, err = dialWire(addr); err != nil {
+			return obs, "the service stopped accepting connections: " + strings.ReplaceAll(err.Error(), addr, "<server>")
+		}
+		now0 := time.Now().Unix()
+		if err := w.send(q); err != nil {
+			return obs, "probe could not be written on a new connection: " + err.Error()
+		}
+		p, _, err := w.recv(q.Method)
+		if err != nil {
+			return obs, fmt.Sprintf("probe %d after the refused bytes got no complete response on a new connection (%v)", k, err)
+		}
+		obs += fmt.Sprint(" ", p.Status)
+		if d := compareResp(q, restExpect(q, now0, time.Now().Unix()), p, nil); d != "" {
+			return obs, fmt.Sprintf("probe %d after the refused bytes is answered wrongly: %s (status %d, body %s)", k, d, p.Status, trunc80(p.Body))
 		}
 	}
 	return obs, ""
